@@ -3,5 +3,5 @@
 # confirm a round-5 seed from /tmp/seed5/<prop>/ and try it in a scratch worktree
 name=$1; prop=$2; demo=$3; dest=$4; run=$5; shift 5
 cd /verif
-tools/seed.sh confirm $name $prop /tmp/seed5/$prop $demo $dest/$demo "$run" $dest 2>&1 | tail -1
+tools/seed.sh confirm $name $prop ${SEEDROOT:-/tmp/seed5}/$prop $demo $dest/$demo "$run" $dest 2>&1 | tail -1
 [ -f seeded/$name/patch.diff ] && tools/refac.sh /verif/seeded/$name/patch.diff $prop "$@" 2>&1 | grep -v "^WARNING conda" | grep "^clean\|^ALARM\|VIOLATION\|UNDEC\|NOAPPLY" | cut -c1-260
